@@ -1117,7 +1117,56 @@ theorem frag_packOK (max : Nat) (hmax : 0 < max) :
     rw [fragDecodeAll_stamp] at this
     simp only [this]
 
+/-! ### (b3) Opus -/
+
+theorem opusPackFrom_get (acc : Nat) (l : List Bytes) (i : Nat) (p : Bytes) (h : l[i]? = some p) :
+    (opusPackFrom acc l)[i]? =
+      some { marker := false, payload := p, dts := acc + ((l.take i).map opusDur).sum } := by
+  induction l generalizing acc i with
+  | nil => simp at h
+  | cons x rest ih =>
+    cases i with
+    | zero => simp at h; subst h; simp [opusPackFrom]
+    | succ j =>
+      simp only [List.getElem?_cons_succ] at h
+      simp only [opusPackFrom, List.getElem?_cons_succ, List.take_succ_cons, List.map_cons, List.sum_cons]
+      rw [ih (acc + opusDur x) j h, Nat.add_assoc]
+
+/-- **Opus timestamp rule**: packet `i` of a unit carries the packet itself, no marker, and the summed
+durations of the packets before it — so after `number`/`stamp` its RTP timestamp is
+`unit timestamp + fixed offset + Σ_{j<i} duration(packet j)` (`generated_get`). -/
+theorem opus_ts (l : List Bytes) (i : Nat) (p : Bytes) (h : l[i]? = some p) :
+    (opusPack l)[i]? = some { marker := false, payload := p, dts := ((l.take i).map opusDur).sum } := by
+  have := opusPackFrom_get 0 l i p h
+  simpa [opusPack] using this
+
+theorem opusPackFrom_payloads (acc : Nat) (l : List Bytes) : (opusPackFrom acc l).map (·.payload) = l := by
+  induction l generalizing acc with
+  | nil => rfl
+  | cons x rest ih => simp [opusPackFrom, ih]
+
+/-- the Opus packetiser satisfies the contract of (a) on units whose packets fit the maximum (the encoder
+itself never splits or checks a packet) -/
+theorem opus_packOK (max : Nat) :
+    PackOK max opusPack opusUnpack (fun l => l ≠ [] ∧ ∀ p ∈ l, p.length ≤ max) := by
+  constructor
+  · intro l hv r hr
+    have : r.payload ∈ (opusPack l).map (·.payload) := List.mem_map_of_mem hr
+    rw [opusPack, opusPackFrom_payloads] at this
+    exact hv.2 _ this
+  · intro l hv h
+    have := congrArg (List.map (·.payload)) h
+    rw [opusPack, opusPackFrom_payloads] at this
+    exact hv.1 this
+  · intro l _
+    simp [opusUnpack, opusPack, opusPackFrom_payloads]
+
 /-! #### non-vacuity / regression examples (kernel-decided) -/
+
+-- 20 ms (config 1, code 0), then 2 x 60 ms (config 3, code 1), then code 3 with 3 frames of 10 ms (config 16..: 2.5 ms)
+example : (opusPack [[0x08, 1], [0x19, 2], [0x83, 0x03, 9], [0x08]]).map (·.dts) = [0, 960, 960 + 5760, 960 + 5760 + 360] := by
+  decide
+example : opusDur [0x83] = 0 := by decide
 
 example : cleanNALU [0x65, 1, 2, 3] = true := by decide
 example : cleanNALU [0x65, 0, 0, 1] = false := by decide     -- start code inside
